@@ -1,33 +1,49 @@
 #!/usr/bin/env python3
-"""prints the markdown table of DESIGN.md section 14 from /verif/seeded/*/"""
+"""prints the markdown table of DESIGN.md section 14 from /verif/seeded/*/
+(directories <id>-rN hold re-runs of the checks after they were strengthened;
+the latest run per check counts, earlier misses are listed separately)"""
 import glob
 import json
 import os
+import re
 
-rows = []
+seeds = {}
 for d in sorted(glob.glob("/verif/seeded/*/")):
     sid = os.path.basename(d.rstrip("/"))
+    m = re.match(r"(.*?)(?:-r(\d+))?$", sid)
+    base, rnd = m.group(1), int(m.group(2) or 1)
+    seeds.setdefault(base, []).append((rnd, d))
+
+print("| seed | property | change (needs to manifest) | confirmed | caught by (signatures) | first missed by, caught after strengthening | still not caught by |")
+print("|------|----------|----------------------------|-----------|------------------------|---------------------------------------------|---------------------|")
+for base, runs in sorted(seeds.items()):
+    runs.sort()
+    d0 = runs[0][1]
     try:
-        meta = json.load(open(d + "meta.json"))
+        meta = json.load(open(d0 + "meta.json"))
     except Exception:
         meta = {}
-    try:
-        conf = json.load(open(d + "confirm.json"))
-    except Exception:
-        conf = {}
-    try:
-        det = json.load(open(d + "detect.json"))
-    except Exception:
-        det = {}
+    conf = {}
+    for _, d in runs:
+        try:
+            c = json.load(open(d + "confirm.json"))
+            if "suite_exit_with_change" in c:
+                conf = c
+        except Exception:
+            pass
     confirmed = conf.get("suite_exit_with_change") == 0 and conf.get("demo_exit_clean") == 0 and conf.get("demo_exit_with_change", 0) != 0
-    caught = [c for c, r in det.items() if r.get("exit") == 1]
-    missed = [c for c, r in det.items() if r.get("exit") == 0]
-    broken = [c for c, r in det.items() if r.get("exit") not in (0, 1)]
-    sigs = "; ".join(sorted({s for r in det.values() for s in r.get("signatures", "").split(";") if s}))[:160]
-    rows.append("| %s | %s | %s | %s | %s | %s |" % (
-        sid, meta.get("property", "?"), (meta.get("summary") or "")[:150].replace("|", "/"),
-        "yes" if confirmed else "NO", ", ".join(caught) or "-",
-        (", ".join(missed) or "-") + ((" (tool error: " + ", ".join(broken) + ")") if broken else "")))
-print("| seed | property | change | confirmed | caught by | not caught by |")
-print("|------|----------|--------|-----------|-----------|---------------|")
-print("\n".join(rows))
+    latest, first = {}, {}
+    for _, d in runs:
+        try:
+            det = json.load(open(d + "detect.json"))
+        except Exception:
+            continue
+        for c, r in det.items():
+            first.setdefault(c, r)
+            latest[c] = r
+    caught = {c: r for c, r in latest.items() if r.get("exit") == 1}
+    missed = [c for c, r in latest.items() if r.get("exit") == 0]
+    improved = [c for c in caught if first[c].get("exit") == 0]
+    sig = "; ".join("%s: %s" % (c, ", ".join(s for s in r.get("signatures", "").split(";") if s)[:90]) for c, r in sorted(caught.items()))
+    what = (meta.get("summary") or "")[:170].replace("|", "/") + " — needs: " + (meta.get("needs_to_manifest") or "")[:170].replace("|", "/")
+    print("| %s | %s | %s | %s | %s | %s | %s |" % (base, meta.get("property", "?"), what, "yes" if confirmed else "NO", sig or "-", ", ".join(sorted(improved)) or "-", ", ".join(sorted(missed)) or "-"))
